@@ -64,12 +64,12 @@ Print Assumptions C08_function_candidates_order_independent.
    anywhere inside a value carries the keyword of a Keyword constraint that occurs in the attribute's constraint -
    as list / set / map element, tuple position, object attribute or one-of alternative; literal types,
    any-expressions, function arguments, type declarations and interpolated keys never yield one *)
-Theorem C08_keyword_candidates_admitted : forall prefill file opens empties vals funcs parens cparens fname refs p fuel c e l i,
-  value_cands prefill file opens empties vals funcs parens cparens fname refs p fuel c e = Some (Some l) -> In i l -> vi_kind i = kKeyword ->
+Theorem C08_keyword_candidates_admitted : forall prefill file opens empties vals funcs parens cparens fname refs fns p fuel c e l i,
+  value_cands prefill file opens empties vals funcs parens cparens fname refs fns p fuel c e = Some (Some l) -> In i l -> vi_kind i = kKeyword ->
   exists kw, has_kw c kw /\ exists n s t sb eb, i = VC kKeyword (Some kw) n s t sb eb.
 Proof.
-  intros prefill file opens empties vals funcs parens cparens fname refs p fuel c e l i H Hin Hk.
-  exact (proj1 (Forall_forall _ _) (value_cands_keywords_admitted prefill file opens empties vals funcs parens cparens fname refs p fuel c e l H) i Hin Hk).
+  intros prefill file opens empties vals funcs parens cparens fname refs fns p fuel c e l i H Hin Hk.
+  exact (proj1 (Forall_forall _ _) (value_cands_keywords_admitted prefill file opens empties vals funcs parens cparens fname refs fns p fuel c e l H) i Hin Hk).
 Qed.
 Print Assumptions C08_keyword_candidates_admitted.
 
